@@ -5,6 +5,8 @@ import ClairModel.Model.Matchers
   Line protocol of the C03 model (see go/internal/c03):
 
     rpmcmp <a> <b>                       -> -1 | 0 | 1
+    debcmp <a> <b>                       -> err | hang | -1 | 0 | 1
+    debnew <a>                           -> err | hex of NewVersion(a).String()
     rpmstr <a>                           -> hex of NewVersion(a).String()
     archop <op> <a> <b> <re>             -> true | false
     vuln <matcher> <pkgver> <pkgarch> <fixed> <vulnpkgver> <vulnpkgarch> <archop> <re> [<gate>]
@@ -57,6 +59,8 @@ def vulnLine (m : String) (p : Pkg) (v : Vuln) (gate : Option RhelGate) : Option
   | "suse" => some (vulnerableSuse p v)
   | "photon" => some (vulnerablePhoton p v)
   | "rhcc" => some (vulnerableRhcc p v)
+  | "debian" => some (vulnerableDebian p v)
+  | "ubuntu" => some (vulnerableUbuntu p v)
   | "rhel" => gate.map fun g => vulnerableRhel g p v
   | _ => none
 
@@ -64,6 +68,17 @@ def answer (l : String) : Option String :=
   match Driver.words l with
   | ["rpmcmp", a, b] => do pure (ordStr (VerRpm.cmpStr (← str a) (← str b)))
   | ["rpmstr", a] => do pure (hexOf (rpmString (VerRpm.newVersion (← str a))))
+  | ["debcmp", a, b] => do
+    match VerDeb.newVersion (← str a), VerDeb.newVersion (← str b) with
+    | some x, some y =>
+      match VerDeb.compare x y with
+      | none => pure "hang"
+      | some o => pure (ordStr o)
+    | _, _ => pure "err"
+  | ["debnew", a] => do
+    match VerDeb.newVersion (← str a) with
+    | none => pure "err"
+    | some v => pure (hexOf v.toStr)
   | ["archop", op, a, b, re] => do
     pure (toString (archCmp (← op.toNat?) (← str a) (← str b) (← parseRe re)))
   | "vuln" :: m :: pv :: pa :: fx :: vv :: va :: op :: re :: rest => do
